@@ -4278,11 +4278,15 @@ func (h *hydraidego) DestroyBulk(ctx context.Context, swampNames []name.Name, pr
 		swampName string
 	}
 	groups := make(map[hydraidepbgo.HydraideServiceClient][]target)
+	var unroutedTargets int64
 	for _, sn := range swampNames {
-		client := h.client.GetServiceClient(sn)
-		if client == nil {
+		// a swamp whose island no configured server covers cannot be destroyed: it is counted as failed,
+		// the swamps of the reachable servers are still destroyed
+		if sc := h.client.GetServiceClientAndHost(sn); sc == nil || sc.Host == "" {
+			unroutedTargets++
 			continue
 		}
+		client := h.client.GetServiceClient(sn)
 		groups[client] = append(groups[client], target{
 			islandID:  sn.GetIslandID(allIslands),
 			swampName: sn.Get(),
@@ -4338,6 +4342,10 @@ func (h *hydraidego) DestroyBulk(ctx context.Context, swampNames []name.Name, pr
 				break
 			}
 		}
+	}
+
+	if unroutedTargets > 0 {
+		return NewError(ErrCodeConnectionError, fmt.Sprintf("DestroyBulk: %d of %d swamps belong to islands without a configured server (plus %d failures on the reachable servers)", unroutedTargets, len(swampNames), totalFailed))
 	}
 
 	if totalFailed > 0 {
